@@ -184,14 +184,15 @@ func init() {
 	plans["C20"] = Plan{
 		Level: "model_checking",
 		Rule: "all interleavings (at the per-type plan cache operations Load/Store of the instrumented ttlv package, caches reset to cold before every execution) of 2-3 threads each encoding/decoding " +
-			"messages of different versions and formats, compared with the result of the same call run alone from cold caches; distinct = distinct (scenario, outcome) classes. " + boundingNote,
+			"messages of different versions and formats, compared with the result of the same call run alone from cold caches; all histories of <= 3 (thorough 4) operations from cold caches; and all ordered pairs (A, B) of the rich baseline messages " +
+			"(27 operations x request/response x versions {1.0, 1.4}, thorough 1.0..1.4) x {binary, XML, JSON, text}: B on an encoder that encoded A and was cleared, and Marshal(A) then Marshal(B) from cold caches, each compared with B alone (and A's returned bytes re-read afterwards); distinct = distinct (scenario, outcome) classes. " + boundingNote,
 		Assumptions: []string{"sequentially consistent memory; the 'no data race' clause is examined separately by a free-running -race pass (supporting evidence, not exhaustive)",
 			"scheduling points are the sync.Map operations of the plan caches (the only synchronisation in the codec)"},
 		Keep:     hasPrefix("fail:codec-result", "panic:", "race:"),
 		Pre:      codecPre,
 		Post:     codecPost,
-		Quick:    cat(pb(100, B{{1, 0}, {2, 0}}, c20two...), pb(100, B{{1, 0}}, c20big...), pb(100, B{{0, 0}}, "codec-hist-3")),
-		Thorough: cat(pb(1500, B{{2, 0}, {3, 0}}, c20two...), pb(1500, B{{2, 0}}, c20big...), pb(1500, B{{0, 0}}, "codec-hist-4")),
+		Quick:    cat(pb(100, B{{1, 0}, {2, 0}}, c20two...), pb(100, B{{1, 0}}, c20big...), pb(100, B{{0, 0}}, "codec-hist-3", "codec-pairs-ttlv", "codec-pairs-xml", "codec-pairs-json", "codec-pairs-text")),
+		Thorough: cat(pb(1500, B{{2, 0}, {3, 0}}, c20two...), pb(1500, B{{2, 0}}, c20big...), pb(1500, B{{0, 0}}, "codec-hist-4", "codec-pairs5-ttlv", "codec-pairs5-xml", "codec-pairs5-json", "codec-pairs5-text")),
 	}
 
 	plans["C19"] = Plan{
